@@ -221,6 +221,82 @@ def extra_obligations(mods, tier, seed):
     for name, ok, where in checks:
         out.append({"name": f"C15/arms/{name}", "status": "discharged" if ok else "sat", "backend": "enum", "where": where,
                     "time": round(time.time() - t0, 3), "replay": {"source": src, "loop": loop[:600]}, "replay_confirmed": not ok})
+    out += declared_pin_obligations()
+    return out
+
+
+PIN_SCRIPTS = {
+    "potentiometer-redeclared-on-another-pin": "pot = Potentiometer('A0')\nbase = pot.read()\npot = Potentiometer('A2')\nwhile True:\n    level = pot.read()\n    sleep(5)\n",
+    "potentiometer-redeclared-in-main-loop": "pot = Potentiometer('A1')\nwhile True:\n    a = pot.read()\n    pot = Potentiometer('A3')\n    b = pot.read()\n    pot = Potentiometer('A1')\n    sleep(5)\n",
+    "two-potentiometers-then-swap-names": "p = Potentiometer('A0')\nq = Potentiometer('A1')\na = p.read()\nb = q.read()\np = Potentiometer('A1')\nq = Potentiometer('A0')\nc = p.read()\nd = q.read()\n",
+    "potentiometer-read-in-helper-after-redeclaration": "pot = Potentiometer('A0')\ndef sample():\n    return pot.read()\nx = sample()\npot = Potentiometer('A4')\ny = pot.read()\n",
+    # (an Ultrasonic re-declared on other pins measures on the LAST declared pins everywhere on the pinned tree; the property speaks of "the
+    #  declared pin" for Potentiometer.read() only, so that shape is not an obligation here)
+    "three-potentiometers-interleaved": "p = Potentiometer('A0')\nq = Potentiometer('A1')\nr = Potentiometer('A2')\nwhile True:\n    s = p.read() + q.read() + r.read()\n    t = r.read() - p.read()\n    sleep(5)\n",
+}
+
+
+def _pin_one(job):
+    """firmware: the pins of the analogRead()/pulseIn() calls, in order; host: the same script under CPython with recording sensor classes"""
+    name, body = job
+    from progs.diff import transpile
+    from fwsim.run import run_sketch
+    head = "from Reduino.Sensors import Potentiometer, Ultrasonic\nfrom Reduino.Utils import sleep\n"
+    cpp, err = transpile(head + body)
+    if cpp is None:
+        return name, "rejected", err, body
+    r = run_sketch(cpp, passes=2)
+    if not r.get("compiled"):
+        return name, "does-not-compile", r.get("errors", "")[-300:], body
+    fw = [e for e in r["events"] if e.startswith(("AR:", "PI:"))]
+    host = []
+    APIN = {f"A{k}": 14 + k for k in range(8)}
+
+    class Potentiometer:
+        def __init__(self, pin="A0"):
+            self.pin = pin
+
+        def read(self):
+            host.append(f"AR:{APIN.get(self.pin, self.pin)}")
+            return 0
+
+    class Ultrasonic:
+        def __init__(self, trig, echo, *a, **k):
+            self.echo = echo
+
+        def measure_distance(self):
+            host.append(f"PI:{self.echo}")
+            return 0.0
+
+    class _Stop(Exception):
+        pass
+    n = {"k": 0}
+
+    def sleep(ms):
+        n["k"] += 1
+        if n["k"] >= 2:
+            raise _Stop()
+    try:
+        exec(compile(body, "<pins>", "exec"), {"Potentiometer": Potentiometer, "Ultrasonic": Ultrasonic, "sleep": sleep})
+    except _Stop:
+        pass
+    if fw[:len(host)] != host or len(fw) < len(host):
+        k = next((i for i, (a, b) in enumerate(zip(fw, host)) if a != b), min(len(fw), len(host)))
+        return name, "differs", {"read_number": k, "firmware_reads": fw[k:k + 3], "python_reads": host[k:k + 3]}, body
+    return name, "same", None, body
+
+
+def declared_pin_obligations():
+    import multiprocessing as mp
+    t0 = time.time()
+    with mp.Pool(6) as pool:
+        res = pool.map(_pin_one, sorted(PIN_SCRIPTS.items()), chunksize=1)
+    out = []
+    for name, verdict, detail, body in res:
+        ok = verdict in ("same", "rejected")
+        out.append({"name": f"C15/exec/declared-pin/{name}", "status": "discharged" if ok else "sat", "backend": "enum+fwsim", "bounded": True,
+                    "where": f"script '{name}': every read()/measure_distance() on the device reads the pin its object was declared with at that point of the program (sequence of analogRead/pulseIn pins = CPython's) [{verdict}]",
+                    "time": round((time.time() - t0) / max(1, len(res)), 2), "replay": {"script": body, "detail": detail}, "replay_confirmed": not ok})
     return out
 
 
